@@ -20,7 +20,7 @@ import (
 func init() {
 	fw.Register(&fw.Prop{
 		ID: "C18",
-		Rule: "statistical conformance monitor: for every parameter set of Full / Uniform / Normal / HeUniform / HeNormal / XavierUniform / XavierNormal / RandU / RandN (nil configs, asymmetric bounds, sigma != 1, odd and even fan sums, fans 1..101) the generator is called thousands of times over shapes of rank 0..4 with odd and even element counts, ALTERNATING with a 'disturber' generator of wildly different parameters, until N >= 40000 (quick) / 400000 (thorough) samples are collected; gonum's global source is seeded from (VERIF_SEED, case) so a run is reproducible. " +
+		Rule: "statistical conformance monitor: for every parameter set of Full / Uniform / Normal / HeUniform / HeNormal / XavierUniform / XavierNormal / RandU / RandN (nil configs, asymmetric bounds, sigma != 1, odd and even fan sums, fans 1..101) the generator is called thousands of times over shapes of rank 0..4 with odd and even element counts, ALTERNATING with a 'disturber' generator of wildly different parameters, until N >= 40000 (quick) / 2000000 (thorough) samples are collected; gonum's global source is seeded from (VERIF_SEED, case) so a run is reproducible. " +
 			"Hard checks on every call: exact shape, tracked (hook; a back-propagation probe on a sample), Full constant, support [lower, upper) / +-sqrt(6/fan). Statistical checks with thresholds fixed in advance (each at >= 6.5 standard errors or Kolmogorov 3.5/sqrt(N), i.e. < 1e-10 per statistic): mean, variance, Kolmogorov distance to the configured CDF - on all samples AND separately on the samples at flat position 0 and at the last position of each tensor; lag-1 autocorrelation of the call-ordered stream; correlation between positions 0 and 1; freshness: consecutive tensors of one generator share (almost) no value at equal positions. " +
 			"Non-trivial: every parameter set; distinct = (generator, parameter set). Later additions: every config struct overwritten right after construction; distinct values inside every drawn tensor, rank-4/5 shapes; large tensors (up to 131 072 elements, several layouts): distinct values, no block repeated at n/2, n/4, n/8, n/16 or one row; consecutive Init results of one Full object are independent tensors." +
 			" Round 4: parameter sets with a bound or mean of exactly 0 and values equal to the defaults.",
@@ -191,7 +191,7 @@ func corr(a, b []float64) float64 {
 }
 
 func runC18(c *fw.Ctx) {
-	target := c.Pick(40000, 400000)
+	target := c.Pick(40000, 2000000)
 	for _, d := range c18Specs() {
 		d := d
 		c.Case(func(k *fw.K) { c18Dist(k, d, target) })
